@@ -91,6 +91,8 @@ class Plan:
         self.max_events = 200000
         self.max_lex = 100000
         self.allow = 0
+        self.tfiles = []     # [{'parts': [...], 'trunc': n, 'chunk': n, 'eio': n, 'flip': [(off, xor)]}]; paths bound at run time
+        self.tpaths = {}     # part name -> path (not serialised)
 
     def copy(self):
         return copy.deepcopy(self)
@@ -102,6 +104,17 @@ class Plan:
             o.append('freerun 1')
         if self.allow:
             o.append('allow %d' % self.allow)
+        for i, t in enumerate(self.tfiles):
+            l = 'tfile %d path=%s' % (i, '+'.join(self.tpaths.get(x, x) for x in t['parts']))
+            if t.get('trunc') is not None:
+                l += ' trunc=%d' % t['trunc']
+            if t.get('chunk'):
+                l += ' chunk=%d' % t['chunk']
+            if t.get('eio') is not None:
+                l += ' eio=%d' % t['eio']
+            if t.get('flip'):
+                l += ' flip=' + ','.join('%d:%d' % (a, b) for a, b in t['flip'])
+            o.append(l)
         for i, s in enumerate(self.sources):
             o.append(s.text(i))
         for i, it in enumerate(self.insts):
@@ -123,7 +136,7 @@ class Plan:
         return {'junk_seed': self.junk_seed, 'junk_pat': self.junk_pat,
                 'sources': [s.to_json() for s in self.sources],
                 'insts': [i.to_json() for i in self.insts], 'sched': self.sched,
-                'freerun': self.freerun, 'max_events': self.max_events, 'max_lex': self.max_lex, 'allow': self.allow}
+                'freerun': self.freerun, 'max_events': self.max_events, 'max_lex': self.max_lex, 'allow': self.allow, 'tfiles': self.tfiles}
 
     @staticmethod
     def from_json(j):
@@ -137,6 +150,7 @@ class Plan:
         p.max_events = j.get('max_events', 200000)
         p.max_lex = j.get('max_lex', 100000)
         p.allow = j.get('allow', 0)
+        p.tfiles = j.get('tfiles', [])
         return p
 
 
